@@ -1293,7 +1293,14 @@ namespace
     {
         auto arr = left.data<d_array>();
         auto r = right.data<d_array>();
+        auto oldsize = arr->size();
         arr->insert(arr->end(), r->begin(), r->end());
+        if (!arr->recursion_test())
+        {
+            arr->erase(arr->begin() + oldsize, arr->end());
+            runtime.__logmsg(err::ArrayRecursion(runtime.context_active().current_frame().diag_info_from_position()));
+            return {};
+        }
         return {};
     }
     value arrayintersect_array_array(runtime& runtime, value::cref left, value::cref right)
